@@ -276,4 +276,309 @@ theorem run_noFb (c : Cfg) (h : c.nFb = 0) (ops : List Op) (s : St) : (run c s o
       cases o <;> simp [step, refresh, h]
     rw [this, ih]
 
+/-! ### The active list as an exact list -/
+
+theorem hcFold_act_eq (b : Int) (pr : Nat → Probe) (lf0 : Nat → Option Int) (k : Nat) :
+    (hcFold b pr lf0 k).act =
+      (List.range k).filter (fun u => !skips b pr lf0 u && (pr u).ok) := by
+  induction k with
+  | zero => simp [hcFold]
+  | succ k ih =>
+    have hk : (hcFold b pr lf0 k).lf k = lf0 k := by
+      rw [(hcFold_closed b pr lf0 k).1]; simp
+    rw [hcFold_succ, List.range_succ, List.filter_append]
+    unfold hcOne
+    rw [hk]
+    by_cases hs : inBackoff b (lf0 k) (pr k).tCheck = true
+    · rw [if_pos hs, ih]
+      simp [skips, hs]
+    · rw [if_neg hs]
+      have hs' : inBackoff b (lf0 k) (pr k).tCheck = false := by simpa using hs
+      by_cases hok : (pr k).ok = true
+      · rw [if_pos hok]
+        simp [ih, skips, hs', hok]
+      · rw [if_neg hok]
+        have hok' : (pr k).ok = false := by simpa using hok
+        simp [ih, hok']
+
+/-- The health filter: the configured upstreams without a recorded failure, in order. -/
+def healthyList (c : Cfg) (lf : Nat → Option Int) : List Nat :=
+  (List.range c.nMain).filter (fun u => (lf u).isNone)
+
+theorem refresh_active_eq (c : Cfg) (s : St) (pr : Nat → Probe) (hf : c.nFb ≠ 0) :
+    (refresh c s pr).1.active = healthyList c (refresh c s pr).1.lastFailed := by
+  simp only [refresh, hf, if_false, hcLoop, healthyList]
+  rw [hcFold_act_eq]
+  apply List.filter_congr
+  intro u hu
+  have hlt : u < c.nMain := by simpa using hu
+  rw [(hcFold_closed c.backoff pr s.lastFailed c.nMain).1 u]
+  simp only [hlt, if_true, lfAfter]
+  by_cases hs : skips c.backoff pr s.lastFailed u = true
+  · simp only [hs, if_true, Bool.not_true, Bool.false_and]
+    simp only [skips, inBackoff] at hs
+    cases hl : s.lastFailed u with
+    | none => simp [hl] at hs
+    | some f => simp
+  · have hs' : skips c.backoff pr s.lastFailed u = false := by simpa using hs
+    simp only [hs', Bool.false_eq_true, if_false, Bool.not_false, Bool.true_and]
+    by_cases hok : (pr u).ok = true
+    · simp [hok]
+    · have hok' : (pr u).ok = false := by simpa using hok
+      simp [hok']
+
+/-- Invariant of all histories: the active list is exactly the health filter. -/
+def Exact (c : Cfg) (s : St) : Prop := s.active = healthyList c s.lastFailed
+
+theorem exact_init (c : Cfg) : Exact c (St.init c) := by
+  simp only [Exact, St.init, healthyList, Option.isNone_none]
+  exact (List.filter_eq_self.2 (fun _ _ => rfl)).symm
+
+theorem step_exact (c : Cfg) (s : St) (o : Op) (h : Exact c s) : Exact c (step c s o).1 := by
+  cases o with
+  | query pick om pickFb ofb => exact h
+  | refresh pr =>
+    by_cases hf : c.nFb = 0
+    · simpa [step, refresh, hf] using h
+    · exact refresh_active_eq c s pr hf
+
+theorem run_exact (c : Cfg) (ops : List Op) (s : St) (h : Exact c s) : Exact c (run c s ops).1 := by
+  induction ops generalizing s with
+  | nil => exact h
+  | cons o os ih => exact ih _ (step_exact c s o h)
+
+theorem mem_healthyList (c : Cfg) (lf : Nat → Option Int) (u : Nat) :
+    u ∈ healthyList c lf ↔ (u < c.nMain ∧ lf u = none) := by
+  simp [healthyList]
+
+/-! ### `NewHandler` -/
+
+theorem new_eq_run (c : Cfg) (init : Option (Nat → Probe)) :
+    ∃ pre : List Op, (St.new c init) = run c (St.init c) pre := by
+  cases init with
+  | none => exact ⟨[], rfl⟩
+  | some pr => exact ⟨[.refresh pr], by simp [St.new, run, step]⟩
+
+theorem run_append (c : Cfg) (s : St) (x y : List Op) :
+    run c s (x ++ y) = ((run c (run c s x).1 y).1, (run c s x).2 ++ (run c (run c s x).1 y).2) := by
+  induction x generalizing s with
+  | nil => simp [run]
+  | cons o os ih =>
+    simp only [List.cons_append, run]
+    rw [ih]
+    simp [List.append_assoc]
+
+theorem runNew_eq_run (c : Cfg) (init : Option (Nat → Probe)) (ops : List Op) :
+    ∃ pre : List Op, runNew c init ops = run c (St.init c) (pre ++ ops) := by
+  obtain ⟨pre, h⟩ := new_eq_run c init
+  refine ⟨pre, ?_⟩
+  rw [run_append, ← h]
+  rfl
+
+/-! ### Interleaved rounds -/
+
+theorem hcOne_congr (b : Int) (pr : Nat → Probe) (a a' : HcAcc) (u : Nat)
+    (h1 : a.lf = a'.lf) (h2 : a.act = a'.act) :
+    (hcOne b pr a u).lf = (hcOne b pr a' u).lf ∧ (hcOne b pr a u).act = (hcOne b pr a' u).act := by
+  unfold hcOne
+  rw [h1]
+  by_cases hs : inBackoff b (a'.lf u) (pr u).tCheck = true
+  · simp [hs, h1, h2]
+  · by_cases hok : (pr u).ok = true
+    · simp [hs, hok, h2]
+    · simp [hs, hok, h2]
+
+theorem hcFoldI_succ (c : Cfg) (s : St) (pr : Nat → Probe) (d : Nat → List QArgs) (k : Nat) :
+    hcFoldI c s pr d (k + 1) = hcOneI c s pr d (hcFoldI c s pr d k) k := by
+  simp [hcFoldI, List.range_succ, List.foldl_append]
+
+theorem hcFoldI_same (c : Cfg) (s : St) (pr : Nat → Probe) (d : Nat → List QArgs) (k : Nat) :
+    (hcFoldI c s pr d k).lf = (hcFold c.backoff pr s.lastFailed k).lf ∧
+    (hcFoldI c s pr d k).act = (hcFold c.backoff pr s.lastFailed k).act := by
+  induction k with
+  | zero => simp [hcFoldI, hcFold]
+  | succ k ih =>
+    rw [hcFoldI_succ, hcFold_succ]
+    unfold hcOneI
+    exact hcOne_congr _ _ _ _ _ ih.1 ih.2
+
+/-- Without concurrent queries the interleaved round is the atomic one. -/
+theorem refreshI_state (c : Cfg) (s : St) (pr : Nat → Probe) (d : Nat → List QArgs) :
+    (refreshI c s pr d).1.active = (refresh c s pr).1.active ∧
+    (refreshI c s pr d).1.lastFailed = (refresh c s pr).1.lastFailed := by
+  unfold refreshI refresh
+  by_cases hf : c.nFb = 0
+  · simp [hf]
+  · simp only [hf, if_false, hcLoop]
+    exact ⟨(hcFoldI_same c s pr d c.nMain).2, (hcFoldI_same c s pr d c.nMain).1⟩
+
+theorem Mon2.run_append (b : Int) (m : Mon2) (x y : List IEv) :
+    Mon2.run b m (x ++ y) = (Mon2.run b m x).bind (fun m' => Mon2.run b m' y) := by
+  induction x generalizing m with
+  | nil => simp [Mon2.run]
+  | cons e r ih =>
+    simp only [List.cons_append, Mon2.run]
+    cases Mon2.step b m e with
+    | none => simp
+    | some m' => simpa using ih m'
+
+/-- Queries served from a state whose active upstreams are not barred are accepted and leave
+the monitor as it is. -/
+theorem Mon2.run_queries (b : Int) (c : Cfg) (s : St) (m : Mon2) (qs : List QArgs)
+    (hb : ∀ u ∈ s.active, m.barred u = false) :
+    Mon2.run b m (qs.map (fun q => IEv.ev (qEv c s q))) = some m := by
+  induction qs with
+  | nil => simp [Mon2.run]
+  | cons q r ih =>
+    simp only [List.map_cons, Mon2.run, qEv, Mon2.step]
+    rw [if_pos]
+    · exact ih
+    · rw [List.all_eq_true]
+      intro u hu
+      have := callsMain_serve c s q.pick q.om q.pickFb q.ofb u hu
+      simp [hb u this]
+
+/-- State of the monitor inside a round. -/
+structure InRound (b : Int) (s : St) (m0 : Mon2) (a : HcAcc) (m : Mon2) : Prop where
+  ran : Mon2.run b m0 (a.evs.map IEv.ev) = some m
+  sim : Sim a.lf { last := m.last }
+  bar : ∀ u ∈ s.active, m.barred u = false
+
+theorem hcOneI_mon (c : Cfg) (s : St) (pr : Nat → Probe) (d : Nat → List QArgs) (a : HcAcc) (u : Nat)
+    (m0 m : Mon2) (h : InRound c.backoff s m0 a m) :
+    ∃ m', InRound c.backoff s m0 (hcOneI c s pr d a u) m' := by
+  obtain ⟨hr, hs, hb⟩ := h
+  -- first the queries
+  have hq : Mon2.run c.backoff m0 ((a.evs ++ (d u).map (qEv c s)).map IEv.ev) = some m := by
+    rw [List.map_append, Mon2.run_append, hr]
+    simp only [Option.bind_some, List.map_map]
+    exact Mon2.run_queries c.backoff c s m (d u) hb
+  unfold hcOneI hcOne
+  simp only []
+  by_cases hbk : inBackoff c.backoff (a.lf u) (pr u).tCheck = true
+  · rw [if_pos hbk]; exact ⟨m, hq, hs, hb⟩
+  · rw [if_neg hbk]
+    have hbk' : inBackoff c.backoff (a.lf u) (pr u).tCheck = false := by simpa using hbk
+    have hstep : ∀ ok : Bool, Mon2.step c.backoff m (.ev (.probe u (pr u).tCheck ok (pr u).tFail)) =
+        some { last := fun j => if j = u then some (if ok then none else some (pr u).tFail) else m.last j,
+               barred := m.barred } := by
+      intro ok
+      have hu := hs u
+      simp only [Mon2.step]
+      split
+      · rename_i f hl
+        simp only [hl] at hu
+        rw [hu] at hbk'
+        simp only [inBackoff, decide_eq_false_iff_not] at hbk'
+        rw [if_neg hbk']
+      · rfl
+    by_cases hok : (pr u).ok = true
+    · rw [if_pos hok]
+      refine ⟨{ last := fun j => if j = u then some none else m.last j, barred := m.barred }, ?_, ?_, hb⟩
+      · simp only [List.map_append, List.map_cons, List.map_nil]
+        rw [Mon2.run_append]
+        rw [List.map_append] at hq
+        rw [hq]
+        simp [Mon2.run, hstep true]
+      · intro v
+        by_cases hv : v = u
+        · subst hv; simp
+        · have := hs v
+          simp only [] at this
+          simp [hv, this]
+    · rw [if_neg hok]
+      refine ⟨{ last := fun j => if j = u then some (some (pr u).tFail) else m.last j, barred := m.barred },
+        ?_, ?_, hb⟩
+      · simp only [List.map_append, List.map_cons, List.map_nil]
+        rw [Mon2.run_append]
+        rw [List.map_append] at hq
+        rw [hq]
+        simp [Mon2.run, hstep false]
+      · intro v
+        by_cases hv : v = u
+        · subst hv; simp
+        · have := hs v
+          simp only [] at this
+          simp [hv, this]
+
+theorem hcFoldI_mon (c : Cfg) (s : St) (pr : Nat → Probe) (d : Nat → List QArgs) (m0 : Mon2)
+    (hs : Sim s.lastFailed { last := m0.last }) (hb : ∀ u ∈ s.active, m0.barred u = false) (k : Nat) :
+    ∃ m, InRound c.backoff s m0 (hcFoldI c s pr d k) m := by
+  induction k with
+  | zero => exact ⟨m0, by simp [hcFoldI, Mon2.run], by simpa [hcFoldI] using hs, hb⟩
+  | succ k ih =>
+    obtain ⟨m, h⟩ := ih
+    rw [hcFoldI_succ]
+    exact hcOneI_mon c s pr d _ k m0 m h
+
+/-- Invariant of interleaved histories. -/
+def Inv2 (s : St) (m : Mon2) : Prop :=
+  Sim s.lastFailed { last := m.last } ∧ (∀ u ∈ s.active, s.lastFailed u = none) ∧
+  (∀ u ∈ s.active, m.barred u = false)
+
+theorem inv2_init (c : Cfg) : Inv2 (St.init c) Mon2.init := by
+  refine ⟨?_, ?_, ?_⟩
+  · intro u; simp [St.init, Mon2.init]
+  · intro u _; simp [St.init]
+  · intro u _; simp [Mon2.init]
+
+theorem stepI_inv (c : Cfg) (s : St) (m : Mon2) (o : IOp) (hi : Inv2 s m) :
+    ∃ m', Mon2.run c.backoff m (stepI c s o).2 = some m' ∧ Inv2 (stepI c s o).1 m' := by
+  cases o with
+  | query q =>
+    refine ⟨m, ?_, hi⟩
+    have := Mon2.run_queries c.backoff c s m [q] hi.2.2
+    simpa [stepI] using this
+  | refresh pr d =>
+    simp only [stepI, refreshI]
+    by_cases hf : c.nFb = 0
+    · simp only [hf, if_true]
+      exact ⟨m, by simp [Mon2.run], hi⟩
+    · simp only [hf, if_false]
+      obtain ⟨m1, hr, hsim, hbar⟩ := hcFoldI_mon c s pr d m hi.1 hi.2.2 c.nMain
+      refine ⟨{ last := m1.last, barred := fun u => lastFailedP (m1.last u) }, ?_, ?_, ?_, ?_⟩
+      · rw [Mon2.run_append, Mon2.run_append, hr]
+        simp only [Option.bind_some]
+        rw [Mon2.run_queries c.backoff c s m1 (d c.nMain) hbar]
+        simp [Mon2.run, Mon2.step]
+      · exact hsim
+      · intro u hu
+        simp only [] at hu ⊢
+        rw [(hcFoldI_same c s pr d c.nMain).2] at hu
+        rw [(hcFoldI_same c s pr d c.nMain).1]
+        have hcl := hcFold_closed c.backoff pr s.lastFailed c.nMain
+        obtain ⟨hlt, hsk, hok⟩ := (hcl.2 u).1 hu
+        rw [hcl.1 u]
+        simp [hlt, lfAfter, hsk, hok]
+      · intro u hu
+        simp only [] at hu ⊢
+        have hnone : (hcFoldI c s pr d c.nMain).lf u = none := by
+          rw [(hcFoldI_same c s pr d c.nMain).2] at hu
+          rw [(hcFoldI_same c s pr d c.nMain).1]
+          have hcl := hcFold_closed c.backoff pr s.lastFailed c.nMain
+          obtain ⟨hlt, hsk, hok⟩ := (hcl.2 u).1 hu
+          rw [hcl.1 u]
+          simp [hlt, lfAfter, hsk, hok]
+        have := hsim u
+        rw [hnone] at this
+        simp only [] at this
+        unfold lastFailedP
+        split
+        · rename_i f hl
+          rw [hl] at this
+          simp at this
+        · rfl
+
+theorem runI_inv (c : Cfg) (ops : List IOp) (s : St) (m : Mon2) (hi : Inv2 s m) :
+    ∃ m', Mon2.run c.backoff m (runI c s ops).2 = some m' ∧ Inv2 (runI c s ops).1 m' := by
+  induction ops generalizing s m with
+  | nil => exact ⟨m, by simp [runI, Mon2.run], hi⟩
+  | cons o os ih =>
+    obtain ⟨m1, h1, h2⟩ := stepI_inv c s m o hi
+    obtain ⟨m2, h3, h4⟩ := ih _ m1 h2
+    refine ⟨m2, ?_, h4⟩
+    simp only [runI]
+    rw [Mon2.run_append, h1]
+    simpa using h3
+
 end Agd.Forward
